@@ -2,6 +2,7 @@ import Mathlib.Tactic
 import ExponaxModel.Model.Layout
 import ExponaxModel.Proofs.ReadOffSpectrum
 import ExponaxModel.Proofs.ReadOffParseval
+import ExponaxModel.Proofs.SpectralOpsEq
 /-
 C17 — radial spectrum: every mode lands in its documented bin.
 Integer part: the half-open bins `[b−½, b+½)` of `get_spectrum`, written on `4|k|²`.
@@ -152,5 +153,26 @@ theorem C17_parseval_nd (D N : ℕ) (hD : 1 ≤ D) (hN : 0 < N) (u : Array ℂ) 
           else Spectrum.quantity D N true (Transform.rfftnM D N u) h) =
       ((1 / 2 * (1 / ((N ^ D : ℕ) : ℝ) * ∑ j ∈ Finset.range (N ^ D), ‖u.getD j 0‖ ^ 2) : ℝ) : ℂ) :=
   ReadOff.spectrum_parseval_nd D N hD hN u hu
+
+/-! ### the read-off code itself (`get_spectrum`, `get_fourier_coefficients`), regenerated from `_spectral.py` on every
+run, is the model read-off the theorems above are about -/
+open Exponax.SpectralOpsEq in
+theorem C17_generated_get_spectrum (D N C : ℕ) (hD : 1 ≤ D) (hN : 0 < N) (hN2 : D = 1 ∨ 2 ≤ N) (power : Bool)
+    (rb : String) (state : Nonlin.MC ℂ) :
+    Gen.SpectralOps.get_spectrum D N C power rb state =
+      Nonlin.tabC C (fun ch => Spectrum.spectrum D N power (decide (rb = "average")) (state.getD ch #[])) :=
+  get_spectrum_eq D N C hD hN hN2 power rb state
+
+open Exponax.SpectralOpsEq in
+/-- the coefficient read-off divides the transform by the documented scaling of the mode (and rounds, if asked);
+    an unknown compensation mode is an error -/
+theorem C17_generated_get_fourier_coefficients [Gen.SpectralOps.HasRoundTo ℂ] (D N C : ℕ) (hD : 1 ≤ D) (hN : 0 < N)
+    (m : String) (code : ℕ) (hm : (m, code) ∈ modeCodes) (round : Option ℕ) (state : Nonlin.MC ℂ) :
+    Gen.SpectralOps.get_fourier_coefficients D N C (some m) round "ij" state =
+      some (Nonlin.tab2 C (Layout.numModes D N) (fun ch h =>
+        roundOpt round ((Transform.rfftnM D N (state.getD ch #[])).getD h 0 /
+          Layout.scaling D N code (Layout.unflatten (Layout.wavenumberShape D N) h)))) :=
+  get_fourier_coefficients_eq D N C hD hN m code hm round state
+
 
 end Exponax
